@@ -7,7 +7,7 @@
    direction are not touched, and that the result is in the box under exact comparisons.
    The first-local-minimiser clause is a statement about real numbers: it is proved on the exact-rational model (C08.v). *)
 From Coq Require Import List Bool Arith Sorted Floats.PrimFloat.
-From LBFGSB Require Generated.Base.
+From LBFGSB Require Generated.CauchyHead Model.NumpyOps.
 From LBFGSB Require Import Base.FloatOrd Model.FloatVec Model.FCauchy Proofs.DriverBox Proofs.FCauchyFloat Proofs.FCauchyProofs.
 Import ListNotations.
 
@@ -60,7 +60,8 @@ End C08_float.
    breakpoint indices  np.argsort(t, kind="stable") filtered by t[sorted] > 0  - is translated from the NumPy source on every
    run (Generated/Base.cauchy_head) and proved equal to the definitions of the binary64 model.  The ordering line is where the
    pinned tree had its defect D1 (the mask applied in unsorted order): that form does not satisfy this theorem. *)
-Module B := LBFGSB.Generated.Base.
+Module B := LBFGSB.Model.NumpyOps.
+Module H := LBFGSB.Generated.CauchyHead.
 
 Lemma head_breakpoints : forall x g lb ub : vec, length g = length x -> length lb = length x -> length ub = length x ->
   let t_0 := List.map (fun _ => 0%float) g in
@@ -90,9 +91,9 @@ Lemma head_filter : forall (t : vec) (idx : list nat),
 Proof. intros t. induction idx as [|i idx IH]; cbn; [reflexivity|]. unfold tnth at 1. destruct (ltb 0 (nth i t nan)); [f_equal|]; exact IH. Qed.
 
 Theorem C08f_head_from_source : forall x g lb ub : vec, length g = length x -> length lb = length x -> length ub = length x ->
-  B.cauchy_head x g lb ub = (breakpoints x g lb ub, dir0 (breakpoints x g lb ub) g, sorted_pos (breakpoints x g lb ub)).
+  H.cauchy_head x g lb ub = (breakpoints x g lb ub, dir0 (breakpoints x g lb ub) g, sorted_pos (breakpoints x g lb ub)).
 Proof.
-  intros x g lb ub Hg Hl Hu. unfold B.cauchy_head. cbv zeta.
+  intros x g lb ub Hg Hl Hu. unfold H.cauchy_head. cbv zeta.
   rewrite (head_breakpoints x g lb ub Hg Hl Hu), head_direction, head_filter. reflexivity.
 Qed.
 
@@ -100,9 +101,9 @@ Qed.
    which the tied-breakpoint defect lived (repaired by fix: 2a903c7; the former mask t >= t_cur does not satisfy this theorem) *)
 Theorem C08f_final_move_from_source : forall (t_old : float) (xcp x d lb ub : vec),
   length x = length xcp -> length d = length xcp -> length lb = length xcp -> length ub = length xcp ->
-  B.cauchy_final_move t_old xcp x d lb ub = final_move t_old xcp x d lb ub.
+  H.cauchy_final_move t_old xcp x d lb ub = final_move t_old xcp x d lb ub.
 Proof.
-  intros t_old. unfold B.cauchy_final_move. cbv zeta.
+  intros t_old. unfold H.cauchy_final_move. cbv zeta.
   induction xcp as [|c xcp IH]; intros x d lb ub Hx Hd Hl Hu; destruct x as [|xi x]; destruct d as [|di d]; destruct lb as [|l lb]; destruct ub as [|u ub]; try discriminate; [reflexivity|].
   injection Hx as Hx. injection Hd as Hd. injection Hl as Hl. injection Hu as Hu. specialize (IH x d lb ub Hx Hd Hl Hu).
   simpl. destruct (eqb di 0); simpl; f_equal; exact IH.
